@@ -2,7 +2,7 @@
    "partial": serde_json's writer is modelled by [serialise] (checked against the real bytes by
    the correspondence run, not verified); schema conformance of all fields is an oracle. *)
 From Coq Require Import Lia.
-From RM Require Import C15.Model C15.Schema C15.Proofs C15.Proofs2 C15.Proofs3.
+From RM Require Import C15.Model C15.Schema C15.Widths C15.Proofs C15.Proofs2 C15.Proofs3 C15.Proofs4.
 Open Scope Z_scope.
 
 (* Escaping is total and correct: every JSON value — arbitrary nesting, arbitrary integers,
@@ -221,6 +221,32 @@ Theorem c15_conforms_rejects :
 Proof. vm_compute. repeat split; reflexivity. Qed.
 Print Assumptions c15_conforms_rejects.
 
+(* POINTER WIDTH, whole document.  In the report of every well-formed state every Address-valued member — crash_info.address,
+   adjusted_address.address / offset, memory_accesses[].address, instruction_pointer_update.address,
+   possible_bit_flips[].address, every frame's offset / module_offset / function_offset and unloaded_modules[].offsets[] (in
+   threads and in the crashing_thread copy), modules / unloaded_modules base_addr / end_addr, mac_crash_info thread /
+   dialog_mode / abort_cause — is "0x" + lower-case hex digits: exactly 16 digits for 64-bit and unknown pointer widths, at least
+   8 for a 32-bit width (exactly 8 when the value is below 2^32: c15_hex_width).  [widths] walks the document and judges
+   every string under one of those member names; the driver evaluates it on the real output as well.
+   regs_named_ok: no register is called like an Address member (true of every register file in minidump-common). *)
+Theorem c15_address_widths : forall p s, wf_state s = true -> regs_named_ok (s_registers s) = true ->
+  exists j, json_of_state p s = Ret j /\ widths (s_width s) [] j = true.
+Proof.
+  intros p s H Hr. exists (report_obj s). split; [exact (report_pure p s H)|exact (report_widths s H Hr)].
+Qed.
+Print Assumptions c15_address_widths.
+
+(* [widths] is not vacuous: a 32-bit-padded address in a 64-bit report, an unpadded address and an upper-case one are rejected *)
+Theorem c15_widths_rejects :
+  widths W64 [] (JObj [(k_crash_info, JObj [(k_address, JStr (address_str W32 4096))])]) = false /\
+  widths WUnknown [] (JObj [(k_modules, JArr [JObj [(k_base_addr, JStr [48; 120; 49; 48])]])]) = false /\
+  widths W32 [] (JObj [(k_threads, JArr [JObj [(k_frames, JArr [JObj [(k_offset, JStr [48; 120; 49; 48])]])]])]) = false /\
+  widths W32 [] (JObj [(k_crash_info, JObj [(k_address, JStr (address_str W32 4096))])]) = true /\
+  widths W32 [] (JObj [(k_crash_info, JObj [(k_address, JStr (address_str W32 (two32 + 5)))])]) = true /\
+  length (address_str W32 (two32 + 5)) = 11%nat.
+Proof. vm_compute. repeat split; reflexivity. Qed.
+Print Assumptions c15_widths_rejects.
+
 (* Every member name print_json can emit — read off the source by translate/c15_keys.py on every run: the keys of its
    json! literals, map["..."] assignments and insert(String::from("...")) calls, plus the fields of the serde-derived
    PossibleBitFlip / BitFlipDetails — is a member name of the documented schema (FINITE CHECK by vm_compute over the two
@@ -277,12 +303,12 @@ Definition ex_state : state :=
                               mc_message := None; mc_signature := None; mc_backtrace := None; mc_message2 := Some [34] |} ];
      s_bootargs := Some [45; 118];
      s_handles := Some [ {| h_handle := Some 18446744073709551615; h_type := Some [70]; h_object := None |} ] |}.
-Example c15_nonvacuous_state : state_ok ex_state /\ wf_state ex_state = true /\
+Example c15_nonvacuous_state : state_ok ex_state /\ wf_state ex_state = true /\ regs_named_ok (s_registers ex_state) = true /\
   exists j, json_of_state Debug ex_state = Ret j /\ parse (serialise j) = Some j /\ conforms DOC_SCHEMA j = true /\
             jget k_thread_count j = Some (JNum 2) /\ (1400 < length (serialise j))%nat.
 Proof.
   assert (W : wf_state ex_state = true) by (vm_compute; reflexivity).
-  split; [apply wf_state_ok; exact W|]. split; [exact W|].
+  split; [apply wf_state_ok; exact W|]. split; [exact W|]. split; [reflexivity|].
   eexists. split; [vm_compute; reflexivity|]. split; [apply serialise_parse|]. split; [vm_compute; reflexivity|].
   split; [reflexivity|vm_compute; lia].
 Qed.
